@@ -354,10 +354,16 @@ def stated_orders(F, rep):
             keys = set()
             if clo and clo in F.bodies:
                 ct = Terms(F, F.bodies[clo], inline_depth=1)
+                if m.endswith("by_key") or m.endswith("cached_key"):
+                    pr = _param_root(ct.local(0))
+                    if pr:
+                        keys.add(".".join(p for p in pr[1] if not p.endswith("()")))
                 for lhs, rhs in _cmp_orientation(ct.local(0)):
                     pr = _param_root(lhs)
                     if pr:
                         keys.add(".".join(pr[1]))
+            elif m == "sort":
+                keys.add("<Ord of element>")
             ok = "ticker" in keys
             detail = f"holdings sorted by {sorted(keys)} ({m}) at {loc} before TaxReport is built" if ok else \
                 f"holdings sort key is {sorted(keys)}, expected ticker"
